@@ -14,7 +14,7 @@ From CV Require Import Base.Num C15.GridModel.
 Import ListNotations.
 Local Open Scope Z_scope.
 
-Inductive vkind := KScalar | KVec3 | KUnit3.
+Inductive vkind := KScalar | KVec3 | KUnit3 | KQuat.
 
 Section Meta.
   Context {T : Type} (O : NumOps T).
@@ -45,7 +45,11 @@ Section Meta.
     c_wt : bool;                   (* well_tempered *)
     c_bias_temp : T;               (* bias_temperature *)
     c_kb : T;                      (* proxy->boltzmann() *)
-    c_step_zero : bool             (* f_cvb_step_zero_data *)
+    c_step_zero : bool;            (* f_cvb_step_zero_data *)
+    c_eb : bool;                   (* ebmeta *)
+    c_eb_equil : Z;                (* ebmeta_equil_steps *)
+    c_eb_target : list Z -> T      (* target_dist (after normalisation at initialisation), by bin index; same
+                                      boundaries as the variables (c_geom0): ebMeta excludes expandBoundaries *)
   }.
 
   Local Notation value := (list T).      (* components of one variable *)
@@ -61,8 +65,9 @@ Section Meta.
 
   (* what happens to the bias: a step of the engine; the state being written (end of a run, restart
      frequency); a restart: the state is written and read by a fresh instance with the same configuration,
-     except, with [Some g], for new grid boundaries g and rebinGrids on *)
-  Inductive event := EStep (i : step_in) | ESave | ERestart (rebin : option (list bound)).
+     except, with [Some g], for new grid boundaries g and rebinGrids on; a reload: the state is written and read
+     back by the same instance, which already holds hills *)
+  Inductive event := EStep (i : step_in) | ESave | ERestart (rebin : option (list bound)) | EReload.
 
   (* ---- metric of one variable: colvar::dist2 / dist2_lgrad ---- *)
 
@@ -83,6 +88,11 @@ Section Meta.
   Definition scale3 (s : T) (a : value) : value := [nmul O s (comp a 0); nmul O s (comp a 1); nmul O s (comp a 2)].
   Definition clamp1 (c : T) : T :=
     if nltb O (n1 O) c then n1 O else if nltb O c (nneg O (n1 O)) then nneg O (n1 O) else c.
+  Definition dot4 (a b : value) : T :=
+    nadd O (nadd O (nadd O (nmul O (comp a 0) (comp b 0)) (nmul O (comp a 1) (comp b 1))) (nmul O (comp a 2) (comp b 2)))
+           (nmul O (comp a 3) (comp b 3)).
+  Definition mpi : T := nacos O (nneg O (n1 O)).       (* PI *)
+  Definition tiny14 : T := ndiv O (n1 O) (nofZ O 100000000000000).
   Definition tiny28 : T := ndiv O (n1 O) (nmul O (nofZ O 100000000000000) (nofZ O 100000000000000)).
 
   (* dist2(x, center) *)
@@ -91,6 +101,10 @@ Section Meta.
     | KScalar => nsq O (vdiff v (sc x) (sc c))
     | KVec3 => let d := sub3 c x in dot3 d d                      (* distance_vec::dist2: |x2 - x1|^2 *)
     | KUnit3 => let th := nacos O (clamp1 (dot3 x c)) in nmul O th th   (* colvarvalue::dist2, unit3vector *)
+    | KQuat =>                                                       (* cvm::quaternion::dist2: q and -q are the same *)
+        let co := dot4 x c in
+        let om := nacos O (clamp1 co) in
+        if nltb O (n0 O) co then nmul O om om else nmul O (nsub O mpi om) (nsub O mpi om)
     end.
 
   (* dist2_lgrad(x, center): derivative with respect to x, one entry per component *)
@@ -103,6 +117,17 @@ Section Meta.
         let s2 := nsub O (n1 O) (nmul O co co) in
         if nltb O (n0 O) co && nltb O s2 tiny28 then [n0 O; n0 O; n0 O]
         else scale3 (ndiv O (nmul O (nmul O (nofZ O 2) (nacos O co)) (nneg O (n1 O))) (nsqrt O s2)) c
+    | KQuat =>                                                       (* cvm::quaternion::dist2_grad *)
+        let co := dot4 x c in
+        let om := nacos O (clamp1 co) in
+        let so := nsin O om in
+        if nltb O (nabs O so) tiny14 then [n0 O; n0 O; n0 O; n0 O]
+        else
+          let g k := nadd O (nmul O (nmul O (nneg O (n1 O)) so) (comp c k))
+                            (ndiv O (nmul O co (nsub O (comp x k) (nmul O co (comp c k)))) so) in
+          let f := if nltb O (n0 O) co then nmul O (nofZ O 2) om
+                   else nmul O (nneg O (nofZ O 2)) (nsub O mpi om) in
+          [nmul O f (g 0%nat); nmul O f (g 1%nat); nmul O f (g 2%nat); nmul O f (g 3%nat)]
     end.
 
   (* ---- kernel: calc_hills / calc_hills_force ---- *)
@@ -152,7 +177,7 @@ Section Meta.
 
   (* colvar_forces[i].reset(): zero, with the number of components of the variable *)
   Definition vzero (v : var_cfg) : value :=
-    match v_kind v with KScalar => [n0 O] | _ => [n0 O; n0 O; n0 O] end.
+    match v_kind v with KScalar => [n0 O] | KQuat => [n0 O; n0 O; n0 O; n0 O] | _ => [n0 O; n0 O; n0 O] end.
   Definition fzero (vs : list var_cfg) (i : nat) : value :=
     match nth_error vs i with Some v => vzero v | None => [] end.
 
@@ -219,11 +244,12 @@ Section Meta.
     st_off_new : list hill;           (* hills_off_grid from new_hills_off_grid_begin on *)
     st_e : list Z -> T;               (* hills_energy *)
     st_g : list Z -> nat -> T;        (* hills_energy_gradients *)
-    st_geom : list bound
+    st_geom : list bound;
+    st_traj : list hill               (* hills_traj_os_buf (writeHillsTrajectory): one record per add_hill *)
   }.
 
   Definition init_state (c : cfg) : state :=
-    mkState [] [] [] [] (fun _ => n0 O) (fun _ _ => n0 O) (c_geom0 c).
+    mkState [] [] [] [] (fun _ => n0 O) (fun _ _ => n0 O) (c_geom0 c) [].
 
   (* ---- update_grid_params: expansion of the grids ---- *)
 
@@ -277,7 +303,7 @@ Section Meta.
                      if index_ok (gsizes gold) oix then eold oix else n0 O)
           (fun ix k => let oix := remap_ix (c_vars c) g' gold ix in
                        if index_ok (gsizes gold) oix then gradold oix k else n0 O)
-          g'
+          g' (st_traj s)
       else s
     else s.
 
@@ -315,17 +341,41 @@ Section Meta.
   (* hills_energy_sum_here of the well-tempered branch: the same sum as calc_energy *)
   Definition wt_energy_here (c : cfg) (s : state) (x : list value) : T := calc_energy c s x.
 
-  Definition wt_scale (c : cfg) (v : T) : T :=
-    nmul O (n1 O) (nexp O (ndiv O (nmul O (nneg O (n1 O)) v) (nmul O (c_bias_temp c) (c_kb c)))).
+  (* wrap_to_edge: periodic dimensions are wrapped, the others brought back to the closest edge bin *)
+  Fixpoint edgeix (vs : list var_cfg) (g : list bound) (ix : list Z) : list Z :=
+    match vs, g, ix with
+    | v :: vs', b :: g', i :: ix' =>
+        (if v_gperiodic v then Z.rem (Z.rem i (b_nx b) + b_nx b) (b_nx b)
+         else if i <? 0 then 0 else if i >=? b_nx b then b_nx b - 1 else i) :: edgeix vs' g' ix'
+    | _, _, _ => []
+    end.
+  (* the bin of the target distribution of ebMeta at x *)
+  Definition tbins (c : cfg) (x : list value) : list Z :=
+    edgeix (c_vars c) (c_geom0 c) (cbins (c_vars c) (c_geom0 c) x).
+
+  (* ebMeta: hills_scale *= 1/target_dist(current bin), ramped in during the first ebmeta_equil_steps steps
+     (hills_lambda = (equil - step)/equil; hills_scale = lambda + (1-lambda)*hills_scale) *)
+  Definition eb_scale (c : cfg) (i : step_in) : T :=
+    if c_eb c then
+      let r := nmul O (n1 O) (ndiv O (n1 O) (c_eb_target c (tbins c (i_x i)))) in
+      if i_it i <? c_eb_equil c then
+        let lam := ndiv O (nofZ O (c_eb_equil c - i_it i)) (nofZ O (c_eb_equil c)) in
+        nadd O lam (nmul O (nsub O (n1 O) lam) r)
+      else r
+    else n1 O.
 
   Definition update_bias (c : cfg) (s : state) (i : step_in) : state :=
     if deposit_now c i then
-      let scale := if c_wt c then wt_scale c (wt_energy_here c s (i_x i)) else n1 O in
+      let s1 := eb_scale c i in
+      let scale := if c_wt c
+                   then nmul O s1 (nexp O (ndiv O (nmul O (nneg O (n1 O)) (wt_energy_here c s (i_x i)))
+                                               (nmul O (c_bias_temp c) (c_kb c))))
+                   else s1 in
       let h := mkHill (i_it i) (nmul O (c_weight c) scale) (i_x i) in
       (* add_hill *)
       mkState (st_old s) (st_new s ++ [h]) (st_off_old s)
               (if c_use_grids c && near_edge c (st_geom s) (i_x i) then st_off_new s ++ [h] else st_off_new s)
-              (st_e s) (st_g s) (st_geom s)
+              (st_e s) (st_g s) (st_geom s) (st_traj s ++ [h])
     else s.
 
   (* ---- update_grid_data: project_hills(new_hills_begin, end) every grids_freq steps ---- *)
@@ -338,7 +388,7 @@ Section Meta.
     mkState (if c_keep c then st_old s ++ st_new s else []) [] (st_off_old s ++ st_off_new s) []
       (fun ix => nadd O (eold ix) (hills_energy (c_vars c) (centre (c_vars c) g ix) batch (n0 O)))
       (fun ix k => nsub O (gradold ix k) (sc (hills_force (c_vars c) (centre (c_vars c) g ix) k batch [n0 O])))
-      g.
+      g (st_traj s).
 
   Definition update_grid_data (c : cfg) (s : state) (i : step_in) : state :=
     if i_it i mod c_gfreq c =? 0 then project c s else s.
@@ -371,8 +421,8 @@ Section Meta.
   Definition read_state (c : cfg) (s : state) : state :=
     let hs := state_hills c s in
     if c_use_grids c
-    then mkState hs [] (filter (near_hill c (st_geom s)) hs) [] (st_e s) (st_g s) (st_geom s)
-    else mkState [] hs [] [] (st_e s) (st_g s) (st_geom s).
+    then mkState hs [] (filter (near_hill c (st_geom s)) hs) [] (st_e s) (st_g s) (st_geom s) []
+    else mkState [] hs [] [] (st_e s) (st_g s) (st_geom s) [].
 
   (* rebin_grids_after_restart with the boundaries g' of the new configuration: from the kept hills when the
      state was written with keepHills and holds hills (project_hills onto empty grids), else from the grids of
@@ -393,15 +443,24 @@ Section Meta.
          then (fun ix k => nsub O (n0 O) (sc (hills_force (c_vars c) (centre (c_vars c) g' ix) k hs [n0 O])))
          else (fun ix k => let oix := remap_ix (c_vars c) g' gold ix in
                            if index_ok (gsizes gold) oix then gradold oix k else n0 O))
-        g'
+        g' (st_traj s)
     else s.
 
   Definition restart_state (c : cfg) (s : state) (rebin : option (list bound)) : state :=
     let s1 := read_state c (save_state c s) in
     match rebin with None => s1 | Some g' => rebin_state c s1 g' end.
 
+  (* the state read by the instance that wrote it: the hills and off-grid hills in memory are pruned, those of the
+     file take their place; the hills trajectory buffer of the instance is untouched *)
+  Definition reload_state (c : cfg) (s : state) : state :=
+    let s1 := read_state c (save_state c s) in
+    mkState (st_old s1) (st_new s1) (st_off_old s1) (st_off_new s1) (st_e s1) (st_g s1) (st_geom s1) (st_traj s).
+
   Definition apply_event (c : cfg) (s : state) (e : event) : state :=
-    match e with EStep i => step_state c s i | ESave => save_state c s | ERestart r => restart_state c s r end.
+    match e with
+    | EStep i => step_state c s i | ESave => save_state c s | ERestart r => restart_state c s r
+    | EReload => reload_state c s
+    end.
 
   Definition final_state (c : cfg) (hist : list event) : state :=
     fold_left (apply_event c) hist (init_state c).
